@@ -95,7 +95,7 @@ class Report:
         from .srcindex import AnalysisError
 
         for r in self.rules:
-            if r.floor is not None and r.instances < max(1, (r.floor * 3 + 4) // 5) and not self.analysis_errors:
+            if r.floor is not None and r.instances < max(1, (r.floor * 3 + 4) // 5) and not self.analysis_errors and not r.findings:
                 raise AnalysisError(
                     f"rule {r.rule} evaluated {r.instances} instances, below 60% of the {r.floor} confirmed by hand "
                     f"(a rule that matches too few sites would pass vacuously; the margin allows sites to be merged by a refactoring)"
